@@ -310,7 +310,7 @@ def getitem(interp, obj, key):
             return SArr(obj.buf, off, ln, obj.dtype_name, obj.stride * st)      # a view
         if isinstance(key, SArr):
             if key.kind == "bool":
-                raise OutsideSubset("boolean mask selection")
+                return mask_select(interp, obj, key)
             # fancy indexing: copy
             used(interp, "fancy-index")
             kn, kget, _ = seq_view_frozen(interp, key)
@@ -444,6 +444,120 @@ def setitem(interp, obj, key, v):
         return interp.call(m, [key, v])
     raise OutsideSubset("item store on live object %r (would mutate shared state)"
                         % (type(obj).__name__,))
+
+
+def mask_select(interp, arr, mask):
+    """x[mask] (axiom): an order-preserving subsequence of exactly the elements
+    whose mask is true.  The result has a fresh symbolic length m and an index
+    map sel: [0,m) -> [0,n), strictly increasing, mask(sel(k)) true, onto the
+    true positions.  The quantified facts go to interp.axioms (used by the
+    proofs, not by branch decisions)."""
+    used(interp, "mask-select")
+    n, get, kind = seq_view_frozen(interp, arr)
+    mn, mget, _ = seq_view_frozen(interp, mask)
+    c = interp.__dict__.setdefault("_nsel", [0])
+    c[0] += 1
+    tag = "sel%d" % c[0]
+    m = z3.Int("len!" + tag)
+    sel = z3.Function(tag, z3.IntSort(), z3.IntSort())
+    inv = z3.Function("inv!" + tag, z3.IntSort(), z3.IntSort())
+    k, i = z3.Int("k!" + tag), z3.Int("i!" + tag)
+    ne = z3.IntVal(n) if isinstance(n, int) else n
+    interp.assume(z3.And(m >= 0, m <= ne))
+    ax = interp.__dict__.setdefault("axioms", [])
+    ax.append(z3.ForAll([k], z3.Implies(z3.And(k >= 0, k < m),
+                                        z3.And(sel(k) >= 0, sel(k) < ne, mget(sel(k)))),
+                        patterns=[sel(k)]))
+    ax.append(z3.ForAll([k], z3.Implies(z3.And(k >= 0, k + 1 < m), sel(k) < sel(k + 1)),
+                        patterns=[sel(k + 1)]))
+    ax.append(z3.ForAll([i], z3.Implies(z3.And(i >= 0, i < ne, mget(i)),
+                                        z3.And(inv(i) >= 0, inv(i) < m, sel(inv(i)) == i)),
+                        patterns=[inv(i)]))
+    # the same facts as schemas for explicit (quantifier-free) instantiation
+
+    def schema(t, t2=None, sel=sel, inv=inv, m=m, ne=ne, mget=mget):
+        out = [z3.Implies(z3.And(t >= 0, t < m), z3.And(sel(t) >= 0, sel(t) < ne, mget(sel(t)))),
+               z3.Implies(z3.And(t >= 0, t + 1 < m), sel(t) < sel(t + 1))]
+        if t2 is not None:
+            out.append(z3.Implies(z3.And(t >= 0, t < t2, t2 < m), sel(t) < sel(t2)))
+        return out
+    schema.sel = sel
+    schema.inv = inv
+    schema.m = m
+    schema.n = ne
+    schema.mask = mget
+    interp.__dict__.setdefault("axiom_schemas", []).append(schema)
+    r = interp.array_from_fn(lambda j: get(sel(j)), m, kind, "masked")
+    r.sel = (sel, inv, m, arr, mask)
+    if isinstance(arr, SArr):
+        r.dtype_name = arr.dtype_name
+    return r
+
+
+axiom("mask-select", "x[mask] is the order-preserving subsequence of exactly the elements with mask true")
+
+
+def np_linspace(interp, args, kw):
+    """np.linspace(a, b, n)[k] = a + k (b - a)/(n - 1) for n >= 2, [a] for n == 1 (axiom)."""
+    used(interp, "linspace")
+    a, b = args[0], args[1]
+    n = args[2] if len(args) > 2 else kw.get("num", 50)
+    ae, be = to_real(num_expr(a)), to_real(num_expr(b))
+    if isinstance(n, int):
+        ne = z3.IntVal(n)
+    else:
+        ne = int_expr(n)
+    interp.side_obligation("linspace point count non-negative", ne >= 0)
+
+    c_ = interp.__dict__.setdefault("_nlin", [0])
+    c_[0] += 1
+    Lin = z3.Function("linspace%d" % c_[0], z3.IntSort(), z3.RealSort())
+
+    def formula(j):
+        j = z3.IntVal(j) if isinstance(j, int) else j
+        return z3.If(ne == 1, ae, ae + z3.ToReal(j) * (be - ae) / z3.ToReal(ne - 1))
+
+    def at(j):
+        j = z3.IntVal(j) if isinstance(j, int) else j
+        return Lin(j)
+
+    def mono(i, i2):
+        """instance of lemma linspace_mono: i < i2, a < b, n >= 2  =>  x_i < x_i2"""
+        return z3.Implies(z3.And(i < i2, ae < be, ne >= 2), Lin(i) < Lin(i2))
+
+    def defn(j):
+        """definitional instance: x_j = a + j (b-a)/(n-1)"""
+        return Lin(j) == formula(j)
+    mono.bounds = (ae, be, ne)
+    mono.defn = defn
+    mono.fn = Lin
+    interp.__dict__.setdefault("linspace_schemas", []).append(mono)
+    # end points are used by almost every proof: instantiate them eagerly
+    if isinstance(n, int) and n <= 64:
+        for j in range(n):
+            interp.assume(defn(z3.IntVal(j)))
+    return interp.array_from_fn(at, n if isinstance(n, int) else ne, "real", "linspace")
+
+
+axiom("linspace", "np.linspace(a,b,n)[k] = a + k(b-a)/(n-1) (n>=2)")
+
+
+def np_ones_like(interp, args, kw):
+    a = args[0]
+    n, _, _ = seq_view(interp, a)
+    return interp.array_from_fn(lambda j: z3.RealVal(1), n, "real", "ones_like")
+
+
+def array_bitop(interp, sym, a, b):
+    """& and | on boolean arrays."""
+    na, ga, ka = seq_view_frozen(interp, a)
+    nb, gb, kb = seq_view_frozen(interp, b)
+    if ka != "bool" or kb != "bool":
+        raise OutsideSubset("bit operator on non-boolean arrays")
+    if not _same(na, nb):
+        interp.side_obligation("array shapes match", (z3.IntVal(na) if isinstance(na, int) else na) == nb)
+    f = z3.And if sym == "&" else z3.Or
+    return interp.array_from_fn(lambda j: f(ga(j), gb(j)), na, "bool", "bitop")
 
 
 # --------------------------------------------------------------------------
@@ -1121,6 +1235,8 @@ def install(interp):
     m[np.asarray] = np_asarray
     m[np.ascontiguousarray] = np_asarray
     m[np.hstack] = np_hstack
+    m[np.linspace] = np_linspace
+    m[np.ones_like] = np_ones_like
     m[np.insert] = np_insert
     m[np.concatenate] = np_hstack
     m[np.sum] = np_sum
